@@ -1,10 +1,10 @@
 """C10 - time- and state-dependent inputs are evaluated at the current time and state."""
 from .common import *  # noqa
 
-KEYS = {"flow_rates", "comp_rates", "derived", "outputs"}
+KEYS = {"flow_rates", "comp_rates", "derived", "outputs", "y1", "f1", "err"}
 # observations whose model value is the property's specified value (a disagreement there is a failing input);
 # on the others the correspondence supports the tie and the oracle searches for the failing input
-SPEC_KEYS = {"flow_rates", "comp_rates"}
+SPEC_KEYS = {"flow_rates", "comp_rates", "y1", "f1", "err"}
 
 
 def run(tier, seed):
@@ -72,6 +72,9 @@ def run(tier, seed):
             obs.append({"obs": "onestep", "params": pv, "t": t, "x": x})
         if (not p["nonlinear"]) or nsteps(p) <= 2:
             obs.append({"obs": "run", "solver": "euler", "params": pv})
+        # one Dormand-Prince step of the default solver: every stage evaluates the rates at its own time and state
+        if len(out) % 3 == 0:
+            obs.append({"obs": "rkstep", "params": pv, "t": p["times"][0], "dt": g.rng.choice(["1/2", "1/4", "3/4"]), "x": None})
         obs.append({"obs": "oracle", "name": "c10", "params": pv, "points": pts, "program": checklib.strip_meta(dict(p, obs=[])),
                     "raw_flows": [{"name": "rawf0", "flow_name": "f0"}],
                     "cvs": {o_["name"]: o_["e"] for o_ in p["ops"] if o_["op"] == "cv" and o_["name"] in ("cvT", "cvR", "cvR2")},
@@ -90,7 +93,7 @@ def run(tier, seed):
     return {"programs": out, "explore": ex, "distinct_nontrivial": len(nontrivial),
             "rule": "models mixing constant, parameter-only, time-dependent (affine, piecewise, interpolated) and state-dependent "
                     "rates and adjustments, time-varying mixing matrices, plus two flows sharing a name and a twin flow with an "
-                    "otherwise equal constant weight, the varying rate of a flow also tracked as a computed value under two names (half of them sharing one Python object with the flow); one_step at 3 (quick) / 6 (thorough) points (t, x) including times between "
+                    "otherwise equal constant weight, one Dormand-Prince step (stage times and states) compared with Model/Adaptive.v, the varying rate of a flow also tracked as a computed value under two names (half of them sharing one Python object with the flow); one_step at 3 (quick) / 6 (thorough) points (t, x) including times between "
                     "output times and boundary states, compared with the model; on the implementation: evaluation at a sequence of "
                     "points vs a freshly built runner at each point (bit-exact), raw flow outputs and computed values along a "
                     "trajectory vs one_step at (times[i], outputs[i]); sigmoidal / linear / piecewise functions over another x axis "
